@@ -370,7 +370,7 @@ fn rand_data(rng: &mut Rng) -> Vec<u8> { let n = match rng.below(8) { 0 => 0, 1 
 
 pub fn generate_c05(tier: &str, rng: &mut Rng) -> Vec<String> {
     let mut v = vec![];
-    let n = if tier == "thorough" { 120_000 } else { 4_000 };
+    let n = if tier == "thorough" { 300_000 } else { 4_000 };
     for _ in 0..n {
         let world = World::new(rng);
         let na = rng.below(7) as usize;
@@ -434,7 +434,7 @@ fn infos_str(sc: &Scenario, idx: &[(usize, bool, bool)]) -> String { if idx.is_e
 
 pub fn generate_c06_c08(prop: &str, tier: &str, rng: &mut Rng) -> Vec<String> {
     let mut v = vec![];
-    let n = if tier == "thorough" { 60_000 } else { 2_500 };
+    let n = if tier == "thorough" { 120_000 } else { 2_500 };
     for _ in 0..n {
         let sc = scenario(rng);
         let mut stored = sc.stored.clone();
@@ -504,7 +504,7 @@ pub fn generate_c07(tier: &str, rng: &mut Rng) -> Vec<String> {
 
 pub fn generate_c12(tier: &str, rng: &mut Rng) -> Vec<String> {
     let mut v = vec![];
-    let n = if tier == "thorough" { 8_000 } else { 350 };
+    let n = if tier == "thorough" { 30_000 } else { 350 };
     for n_items in [0usize, 1, 2, 7, 100] { v.push(format!("sizeof {n_items}")); }
     v.push(format!("sizeof {}", usize::MAX / 35));
     for case in 0..n {
